@@ -28,13 +28,16 @@ BASE = {
 }
 SOLVES = {
     "solve": dict(backend="cvxpy", mode="dual", dr=None),
+    "solve_default": dict(backend="cvxpy", mode="dual", dr=None, solver=None),                      # no solver option at all
+    "solve_scs_capped": dict(backend="cvxpy", mode="dual", dr=None, solver="SCS", extra={"max_iters": 3}),   # an option that must not outlive its solve
     "solve_primal": dict(backend="cvxpy", mode="primal", dr=None),
     "solve_trace": dict(backend="cvxpy", mode="dual", dr="trace"),
     "solve_logdet1": dict(backend="cvxpy", mode="dual", dr="logdet1"),
     "solve_mosek": dict(backend="mosek", mode="dual", dr=None),
 }
 FAULTS = ["answer_novalue", "answer_error"]
-EDITS = ["replace_init", "add_metric", "add_lmi", "add_contradiction", "remove_contradiction", "new_block", "held_lmi"]
+EDITS = ["replace_init", "add_metric", "add_lmi", "add_contradiction", "remove_contradiction", "new_block", "held_lmi", "more_samples",
+         "hand_partition_constraint"]
 OTHER = ["eval_held", "new_derived"]
 OPS = list(SOLVES) + FAULTS + EDITS + OTHER
 
@@ -88,6 +91,33 @@ def apply_edit(ctx, op, solved_flag):
         st["n_block"] += 1
         pt = ctx.points["xn"] if st["n_block"] == 1 else ctx.points["x0"] + ctx.points["xn"]
         ctx.exprs["newblocks_%d" % st["n_block"]] = [part.get_block(pt, k) ** 2 for k in range(part.get_nb_blocks())]
+    elif op == "more_samples":
+        # new samples that reach the functions without their own oracle() being called: a further stationary point, and an
+        # evaluation of the SUM at a new point (its terms get their samples through add_point)
+        if st.get("n_more", 0) >= 1:
+            return False
+        st["n_more"] = 1
+        tgt = ctx.funcs.get("F", ctx.funcs["f"])
+        from PEPit import Point
+        from PEPit.primitive_steps import proximal_step
+        # (a) a sample declared by a step: recorded through add_point, no oracle() call on the function itself
+        xp, gp, fp = proximal_step(ctx.points["x0"], tgt, 0.5)
+        ctx.points["more_prox"] = xp
+        pep.add_constraint((xp - ctx.points["x0"]) ** 2 <= 4)
+        # (b) an evaluation of the (possibly composite) function at a new point
+        if st.get("n_more_variant", 0) == 0 and "F" in ctx.funcs:
+            z = Point()
+            tgt.oracle(z)
+            ctx.points["more_z"] = z
+            pep.add_constraint((z - ctx.points["x0"]) ** 2 <= 0.25)
+    elif op == "hand_partition_constraint":
+        part = getattr(ctx, "partition", None)
+        if part is None or st.get("n_hand", 0) >= 1:
+            return False
+        st["n_hand"] = 1
+        con = (ctx.points["x0"] * ctx.points["xn"] <= 2)
+        ctx.constraints["hand_partition"] = con
+        part.add_constraint(con)
     elif op == "held_lmi":
         if st["n_held"] >= 1:
             return False
@@ -103,6 +133,9 @@ def apply_edit(ctx, op, solved_flag):
     else:
         raise KeyError(op)
     return True
+
+
+BASE_KIND = {}
 
 
 def summary(calls, nP, nF):
@@ -126,7 +159,8 @@ def summary(calls, nP, nF):
 
 def do_solve(pep, opts):
     with REC.recording():
-        return solving.solve(pep, backend=opts["backend"], mode=opts["mode"], dr=opts["dr"])
+        return solving.solve(pep, backend=opts["backend"], mode=opts["mode"], dr=opts["dr"],
+                             solver=opts.get("solver", "CLARABEL"), extra=opts.get("extra"))
 
 
 def run_sequence(mname, seq):
@@ -209,7 +243,9 @@ def run_sequence(mname, seq):
     A["summary"] = summary(callsA, nP, nF)
     A["n_rows"] = len(callsA)
     opts = SOLVES[op]
-    tol = solving.tolerance(opts["backend"], "CLARABEL")
+    tol = solving.tolerance(opts["backend"], opts.get("solver", "CLARABEL"))
+    if opts.get("extra"):
+        return dedupe(probs), "capped-solve-not-judged"      # a deliberately truncated solve is only there to leave options behind
     if rA["exc"] is None and rA["value"] is not None and rA["status"] == "optimal":
         sent_c = [c[1] for c in callsA if c[0] == "scalar"]
         sent_m = [c[1] for c in callsA if c[0] == "lmi"]
@@ -257,6 +293,22 @@ def run_sequence(mname, seq):
         probs.append(("resolve:raises:%s" % type(rA["exc"]).__name__, "re-solving raised %s: %s (the freshly built equivalent model solves)"
                       % (type(rA["exc"]).__name__, str(rA["exc"])[:150])))
         return dedupe(probs), "raised"
+    # an option given to an earlier solve must not outlive it (not even in another problem object of the same process):
+    # the solver that ran must be the one the LAST call asked for ...
+    try:
+        want = {"CLARABEL": "CLARABEL", "SCS": "SCS", None: "SCS"}[opts.get("solver", "CLARABEL")] if opts["backend"] == "cvxpy" else "MOSEK"
+        if rA["exc"] is None and pep.wrapper.solver_name != want:
+            probs.append(("resolve:wrong-solver", "the last solve asked for %r and ran %s" % (opts.get("solver", "CLARABEL"), pep.wrapper.solver_name)))
+    except Exception:
+        pass
+    # ... and after a deliberately truncated solve, the reference is computed in a forked PRISTINE process (a leak at
+    # process level would contaminate a reference built in this process as well)
+    if "solve_scs_capped" in seq[:-1] and rA["exc"] is None:
+        ref = _fresh_in_fork(mname, [o for o in seq if o in EDITS], seq[-1])
+        if ref is not None and ref["status"] == "optimal" and (rA["status"] != "optimal" or rA["value"] is None
+                                                               or abs(rA["value"] - ref["value"]) > 5e-2 * max(1.0, abs(ref["value"]))):
+            probs.append(("resolve:option-outlived-its-solve", "after an earlier solve capped at 3 iterations the last solve returns %r (%s); "
+                          "the same model solved with the same options in a pristine process returns %r (optimal)" % (rA["value"], rA["status"], ref["value"])))
     sB = summary(callsB, nPB, nFB)
     if A["summary"] != sB:
         probs.append(("resolve:data-differs", "the data sent at the last solve (%d items) differ from what a freshly built "
@@ -268,9 +320,44 @@ def run_sequence(mname, seq):
         return dedupe(probs), "no-optimum"
     if rA["status"] != "optimal" or rB["status"] != "optimal" or vA is None or vB is None:
         return dedupe(probs), "not-judged:%s/%s" % (rA["status"], rB["status"])
-    if abs(vA - vB) > (2e-5 if not opts["dr"] or opts["mode"] == "dual" else 1e-3) * max(1.0, abs(vB)):
+    vtol = 2e-5 if opts.get("solver", "CLARABEL") == "CLARABEL" else 2e-2
+    if abs(vA - vB) > (vtol if not opts["dr"] or opts["mode"] == "dual" else max(vtol, 1e-3)) * max(1.0, abs(vB)):
         probs.append(("resolve:value-differs", "re-solved model returns %.8g, freshly built equivalent model %.8g" % (vA, vB)))
     return dedupe(probs), "compared"
+
+
+def _fresh_in_fork(mname, edits, solve_op):
+    """value / status of the model with these edits solved once with solve_op's options, in a forked child"""
+    import os, json
+    rfd, wfd = os.pipe()
+    pid = os.fork()
+    if pid == 0:
+        out = None
+        try:
+            os.close(rfd)
+            ctx = models.build(BASE[mname])
+            for o in edits:
+                apply_edit(ctx, o, False)
+            r = do_solve(ctx.pep, SOLVES[solve_op])
+            out = dict(value=None if r["value"] is None else float(r["value"]), status=r["status"], exc=None if r["exc"] is None else type(r["exc"]).__name__)
+        except BaseException as e:  # noqa
+            out = dict(value=None, status=None, exc=type(e).__name__)
+        finally:
+            os.write(wfd, json.dumps(out).encode())
+            os._exit(0)
+    os.close(wfd)
+    data = b""
+    while True:
+        b = os.read(rfd, 65536)
+        if not b:
+            break
+        data += b
+    os.close(rfd)
+    os.waitpid(pid, 0)
+    try:
+        return json.loads(data.decode())
+    except Exception:
+        return None
 
 
 def dedupe(probs):
@@ -286,7 +373,7 @@ def _depth(tier):
 
 
 def _ops_for(mname):
-    return [o for o in OPS if not (o == "new_block" and mname != "block")]
+    return [o for o in OPS if not (o in ("new_block", "hand_partition_constraint") and mname != "block")]
 
 
 def shards(tier):
@@ -294,7 +381,7 @@ def shards(tier):
     for m in BASE:
         for first in _ops_for(m):
             if tier == "quick":
-                out.append(dict(model=m, first=[first], depth=3))
+                out.append(dict(model=m, first=[first], depth=3, quick=True))
             else:
                 for second in _ops_for(m):
                     out.append(dict(model=m, first=[first, second], depth=4))
@@ -314,6 +401,8 @@ def run_shard(shard, tier):
             for seq in cands:
                 if seq[-1] not in finals:
                     continue
+                if shard.get("quick") and len(seq) == 3 and (seq[1] in SOLVES or seq[1] in FAULTS):
+                    continue      # quick tier: the middle operation of a 3-sequence is an edit / evaluation (solve-solve-solve is thorough)
                 probs, label = run_sequence(m, seq)
                 if probs is None:
                     continue
@@ -336,7 +425,7 @@ def replay(case):
 
 def meta(tier):
     return dict(
-        rule="all sequences of <= %d operations ending in a solve (or an injected solver answer) over %s on the base models "
+        rule="all sequences of <= %d operations (quick tier: in sequences of 3 the middle operation is an edit or an evaluation) ending in a solve (or an injected solver answer) over %s on the base models "
              "%s; after each one: differential comparison with a freshly built equivalent model solved once with the same "
              "options (value, numbering-free multiset of the data sent), certificate and instance of the latest solve over "
              "the recorded sent list, eval() of every held / earlier-evaluated / post-solve-built object on the current "
